@@ -51,3 +51,10 @@ Example C05_nonvacuous :
   let g3 := fst (step g2 (CTx 42 1 9 0 true)) in
   snd (step g3 (CTx 42 1 9 0 true)) = ORejected /\ g_wait g3 = 2 /\ next_h g3 = 1.
 Proof. vm_compute. repeat split. Qed.
+
+(* assumptions of the theorems above that had no report next to them *)
+Print Assumptions C05_wrong_tx_idx_rejected.
+Print Assumptions C05_midblock_timestamp_or_hash_mismatch_rejected.
+Print Assumptions C05_finalise_wrong_count_rejected.
+Print Assumptions C05_existing_hash_rejected.
+Print Assumptions C05_bad_encodings_rejected.
